@@ -38,6 +38,39 @@ fn run_one(sc: &Value) {
         pool::SITE_FAKE[site].store(1, SeqCst);
         in_lib(|| inj.when_called(injectorpp::func!(pool::tb1, fn(u32) -> bool)).will_execute(pool::counted_site(site)));
         emit(json!({"ev":"TimesBegin","n":n,"k_match":km,"k_nomatch":kn,"threads":threads}));
+        let burst = sc.get("burst").and_then(|x| x.as_bool()).unwrap_or(false);
+        if burst {
+            // tight loops, no logging between calls (logging serialises the callers and hides
+            // races inside the counter update); per-thread outcome counts are reported at the end
+            let bar = Arc::new(Barrier::new(threads));
+            let mut hs = Vec::new();
+            for t in 0..threads {
+                let mine: Vec<bool> = calls.iter().cloned().enumerate().filter(|(j, _)| j % threads == t).map(|(_, m)| m).collect();
+                let bar = bar.clone();
+                hs.push(std::thread::spawn(move || {
+                    let f = std::hint::black_box(pool::tb1 as fn(u32) -> bool);
+                    let (mut ret, mut over, mut args, mut other) = (0u32, 0u32, 0u32, 0u32);
+                    bar.wait();
+                    for m in mine {
+                        match catch_unwind(|| f(if m { 1 } else { BAD_ARG })) {
+                            Ok(true) => ret += 1,
+                            Ok(false) => other += 1,
+                            Err(p) => match panics::classify(&panics::payload_str(&*p)).0 {
+                                "over-called" => over += 1,
+                                "unexpected-args" => args += 1,
+                                _ => other += 1,
+                            },
+                        }
+                    }
+                    emit(json!({"ev":"Burst","ret":ret,"over":over,"args":args,"other":other}));
+                }));
+            }
+            for h in hs {
+                let _ = h.join();
+            }
+            in_lib(|| drop(inj));
+            return;
+        }
         let bar = Arc::new(Barrier::new(threads));
         let mut hs = Vec::new();
         for t in 0..threads {
